@@ -161,8 +161,9 @@ OPT = [("opt", "string"), ("zopt", "number"), ("extra", {"t": "object", "props":
 
 def loosen(r, v, depth=3, declared_only=False):
     """declared_only: every member of the value is declared or covered by a non-absent items / additionalProperties (no
-    member whose schema check derives as `false`: Model/Eval.v counts a diagnostic where the implementation rejects an
-    unknown value of schema `false` silently; the families that feed such members into typed built-ins avoid them)"""
+    member whose schema check derives as `false`).  No family asks for it any more: the implementation rejects an unknown
+    value of schema `false` WITHOUT a diagnostic (eval_validate.go:191-193) and Model/Eval.v `silent_never` says the same, so
+    such members are fed into the typed built-ins like any other."""
     t = tname(v)
     k = r.below(9)
     if k == 0 or depth <= 0:
@@ -216,9 +217,9 @@ def fix_world(r, case, keep_bad=4):
             continue
         if not conforms(p["out"], p["const"]):
             if not r.chance(1, keep_bad):
-                p["out"] = loosen(r, p["const"], declared_only=True)
+                p["out"] = loosen(r, p["const"])
         elif p["out"] != "always" and r.chance(1, 4):
-            p["out"] = loosen(r, p["const"], declared_only=True)
+            p["out"] = loosen(r, p["const"])
     return case
 
 
@@ -293,10 +294,11 @@ def declared_path(s, path):
 
 def consumers(r, root, const, n, out_s="always"):
     """n expressions consuming the value named by path `root' whose (opened) value is `const'.  The typed built-ins
-    (fn::join, fn::toBase64) only read members the declared schema `out_s' gives a schema to."""
+    (fn::join, fn::toBase64) read members whether or not the declared schema `out_s' gives them a schema: a member it does
+    not (declared_path(out_s, p) false) is an unknown of schema `false` while checking, rejected without a diagnostic."""
     ps = paths(const)
-    strs = [p for p, v in ps if tname(v) == "string" and declared_path(out_s, p)]
-    strlists = [p for p, v in ps if tname(v) == "array" and all(tname(e) == "string" for e in v["v"]) and declared_path(out_s, p)]
+    strs = [p for p, v in ps if tname(v) == "string"]
+    strlists = [p for p, v in ps if tname(v) == "array" and all(tname(e) == "string" for e in v["v"])]
     objs = [p for p, v in ps if tname(v) == "object"]
     out = []
     for _ in range(n):
